@@ -247,6 +247,19 @@ def codec16 : Codec UInt16 where
       (let k := UInt16.ofNat (ofBE b); if k = maxU16 then none else some k)
     else none
 
+/-- A second key codec for the correspondence run, variable-length and **not prefix-free**: keys below 256 encode as one
+byte, the others as two bytes big-endian (0xFFFF unencodable); only canonical encodings decode.  The encoding of `k < 256`
+is a proper prefix of the encodings of `256*k .. 256*k+255`. -/
+def codecVar : Codec UInt16 where
+  enc k := if k = maxU16 then none
+    else if k.toNat < 256 then some [UInt8.ofNat k.toNat]
+    else some [UInt8.ofNat (k.toNat / 256), UInt8.ofNat k.toNat]
+  dec b := match b with
+    | [x] => some (UInt16.ofNat x.toNat)
+    | [x, y] => if x = 0 then none else
+        (let k := UInt16.ofNat (ofBE [x, y]); if k = maxU16 then none else some k)
+    | _ => none
+
 /-! ## line protocol -/
 open Hive.Proto
 
@@ -312,7 +325,7 @@ def showStore (m : Store) : String :=
 def showSRes (r : SRes UInt16 UInt64) : String :=
   s!"{showSOut r.out} calls={showSTrace r.tr} store={showStore r.st}"
 
-def sstepLine (m : Store) (toks : List String) : Store × String :=
+def sstepLineK (KC : Codec UInt16) (m : Store) (toks : List String) : Store × String :=
   match toks with
   | ["rawset", k, v] =>
     match unhex k, unhex v with
@@ -325,7 +338,7 @@ def sstepLine (m : Store) (toks : List String) : Store × String :=
   | ["iterk", p, d, stop, f] =>
     match unhex p, (if d == "fwd" then some false else if d == "bwd" then some true else none), stop.toNat?, parseSFaults f with
     | some p, some bwd, some stop, some F =>
-      let r := siterateKeys codec16 m p bwd stop F
+      let r := siterateKeys KC m p bwd stop F
       let keys := match r.out with
         | .iter d _ => "[" ++ " ".intercalate (d.map fun (x : UInt16 × Unit) => toString x.1.toNat) ++ "]"
         | _ => "[]"
@@ -350,7 +363,9 @@ def sstepLine (m : Store) (toks : List String) : Store × String :=
     | none => (m, "bad-op")
   | _ =>
     match parseSOp toks with
-    | some (op, F) => let r := sstep codec16 codec64 m op F; (r.st, showSRes r)
+    | some (op, F) => let r := sstep KC codec64 m op F; (r.st, showSRes r)
     | none => (m, "bad-op")
+
+def sstepLine (m : Store) (toks : List String) : Store × String := sstepLineK codec16 m toks
 
 end Hive.Typed
